@@ -59,8 +59,10 @@ def reaching_def(f, name, use_eid):
     di, dbid = found
     # no other store to the name between the definition and the use
     if dbid != bid:
-        fwd = flow.reach_from(f, dbid)
-        back = _reach_back(f, bid)
+        fwd = set()
+        for s_, _ in f.edges(dbid):
+            fwd |= flow.reach_from(f, s_, avoid={dbid})
+        back = _reach_back(f, bid, avoid={dbid})
         mid = (fwd & back) - {dbid, bid}
         for m in mid:
             for i in flow.events(f, m):
@@ -74,21 +76,22 @@ def reaching_def(f, name, use_eid):
 
 
 def changed_between(f, name, d_eid, u_eid):
-    """May local `name` be stored to on a path from event d_eid to event u_eid?"""
+    """May local `name` be stored to on a path from event d_eid to event u_eid that does not execute d_eid again?"""
     pos = flow.elem_pos(f)
     if d_eid not in pos or u_eid not in pos:
         return True
     (db, dn), (ub, un) = pos[d_eid], pos[u_eid]
     if db == ub and dn < un:
         span = [(db, dn + 1, un)]
-        # also around a loop through the block
-        if db in flow.reach_from(f, db) - {db} or any(db in [s for s, _ in f.edges(x)] for x in flow.reach_from(f, db) if x != db):
-            pass
     else:
-        fwd = flow.reach_from(f, db)
-        back = _reach_back(f, ub)
+        fwd = set()
+        for s, _ in f.edges(db):
+            fwd |= flow.reach_from(f, s, avoid={db})
+        back = _reach_back(f, ub, avoid={db})
         mid = (fwd & back) - {db, ub}
         span = [(db, dn + 1, None), (ub, 0, un)] + [(m, 0, None) for m in mid]
+        if ub in fwd and any(ub in flow.reach_from(f, s, avoid={db}) for s, _ in f.edges(ub)):
+            span.append((ub, 0, None))        # the use sits in a loop that does not pass the definition again
     for bid, a, b in span:
         el = f.blocks[bid].elems
         for i in el[a:(b if b is not None else len(el))]:
@@ -104,12 +107,12 @@ def _stable_form(f, form, d_eid, u_eid):
     return True
 
 
-def _reach_back(f, target):
+def _reach_back(f, target, avoid=()):
     seen = set()
     st = [target]
     while st:
         n = st.pop()
-        if n in seen:
+        if n in seen or n in avoid:
             continue
         seen.add(n)
         st.extend(f.blocks[n].preds)
